@@ -11,6 +11,7 @@ import (
 
 	"github.com/dgraph-io/badger/v4"
 
+	"github.com/bartossh/Computantis/src/spice"
 	"github.com/bartossh/Computantis/src/transaction"
 	"github.com/bartossh/Computantis/src/verifrt"
 )
@@ -266,6 +267,14 @@ func vhStepCreateLeaf(prop string) {
 	trx := transaction.Transaction{
 		CreatedAt: l.recs[0].v.CreatedAt, IssuerAddress: vhWallet("issNew"), ReceiverAddress: vhWallet("rcvNew"),
 		Subject: "s", IssuerSignature: []byte{1}, Hash: vhTrxHash(k), Spice: vhAmt("amtNew"),
+	}
+	if kind == 0 || kind == 2 || kind == 3 {
+		switch verifrt.Choose("payload", 3) { // spice only / data only / data and spice
+		case 1:
+			trx.Data, trx.Spice = []byte{1}, spice.Melange{}
+		case 2:
+			trx.Data = []byte{1}
+		}
 	}
 	switch kind {
 	case 1: // replay of a sealed transaction
